@@ -248,9 +248,9 @@ theorem specToks_sgrs (colour : Bool) (level : Nat) (cs : Chunks) :
 
 theorem builderOf_eq (it : PlanItem) : builderOf it = { target := it.target, ttyOnly := it.ttyOnly } := by
   rcases it with ⟨t, b, o⟩
-  cases o <;> rfl
+  cases o <;> cases t <;> cases b <;> rfl
 
-/-- the lazy cell is empty or holds what the environment says -/
+/-- the lazy cell is empty or holds what the environment `env` says -/
 def Proc.Coherent (env : Env) (p : Proc) : Prop :=
   p.colorCell = none ∨ p.colorCell = some (colorMode env)
 
@@ -261,40 +261,81 @@ theorem derefColorMode_coherent (env : Env) (p : Proc) (h : p.Coherent env) :
   · exact ⟨rfl, Or.inr rfl⟩
   · exact ⟨rfl, Or.inr h⟩
 
+/-- once the cell is filled it answers with its content, whatever the environment is now -/
+theorem derefColorMode_filled (env : Env) (m : ColorMode) :
+    (Proc.derefColorMode { colorCell := some m } env) = (m, { colorCell := some m }) := rfl
+
+/-- what `build` yields for an item when the colour mode is `m` -/
+def builtWithMode (u : Bool) (ttyOut ttyErr : Bool) (m : ColorMode) (it : PlanItem) : Built :=
+  let tty := (Global.isatty { env := {}, ttyOut := ttyOut, ttyErr := ttyErr } it.target)
+  { target := it.target
+    kind := writerKind m tty
+    doWrite := doWriteWith u (writerKind m tty) tty it.ttyOnly }
+
 /-- what `build` yields for an item when the colour mode is read straight from the environment -/
 def builtOf (u : Bool) (g : Global) (it : PlanItem) : Built :=
-  { target := it.target
-    kind := writerKind (colorMode g.env) (g.isatty it.target)
-    doWrite := doWriteWith u (writerKind (colorMode g.env) (g.isatty it.target)) (g.isatty it.target) it.ttyOnly }
+  builtWithMode u g.ttyOut g.ttyErr (colorMode g.env) it
+
+theorem isatty_env_irrelevant (e e' : Env) (o r : Bool) (t : Target) :
+    Global.isatty { env := e, ttyOut := o, ttyErr := r } t = Global.isatty { env := e', ttyOut := o, ttyErr := r } t := by
+  cases t <;> rfl
+
+/-- with a filled cell every later build uses the cell's mode — the environments of the steps are
+not looked at -/
+theorem buildAllEnvs_filled (u o r : Bool) (m : ColorMode) (steps : List (Env × PlanItem)) :
+    (buildAllEnvs u o r { colorCell := some m } steps).1 = steps.map fun x => builtWithMode u o r m x.2 := by
+  induction steps with
+  | nil => rfl
+  | cons x xs ih =>
+    obtain ⟨env, it⟩ := x
+    simp only [buildAllEnvs, buildWith, derefColorMode_filled, builderOf_eq, List.map_cons, ih]
+    congr 1
+
+theorem buildAllEnvs_first (u o r : Bool) (env0 : Env) (it0 : PlanItem) (steps : List (Env × PlanItem)) :
+    (buildAllEnvs u o r {} ((env0, it0) :: steps)).1 =
+      ((env0, it0) :: steps).map fun x => builtWithMode u o r (colorMode env0) x.2 := by
+  simp only [buildAllEnvs, buildWith, Proc.derefColorMode, builderOf_eq, List.map_cons]
+  rw [buildAllEnvs_filled]
+  congr 1
 
 theorem buildAllWith_eq (u : Bool) (g : Global) (items : List PlanItem) :
-    ∀ p : Proc, p.Coherent g.env → (buildAllWith u g p items).1 = items.map (builtOf u g) := by
-  induction items with
-  | nil => intro p _; rfl
-  | cons it its ih =>
-    intro p hp
-    obtain ⟨h1, h2⟩ := derefColorMode_coherent g.env p hp
-    simp only [buildAllWith, buildWith, builderOf_eq, h1, List.map_cons, builtOf]
-    rw [ih _ h2]
+    (buildAllWith u g {} items).1 = items.map (builtOf u g) := by
+  cases items with
+  | nil => rfl
+  | cons it its =>
+    unfold buildAllWith
+    rw [List.map_cons, buildAllEnvs_first]
+    simp [builtOf, List.map_map, Function.comp_def]
 
 theorem setupOf_targetIsatty (g : Global) (it : PlanItem) :
     (setupOf g it).targetIsatty = g.isatty it.target := by
   rcases it with ⟨t, b, o⟩
   cases t <;> rfl
 
-theorem appendBuiltLevels_eq (n : Nat) (u : Bool) (g : Global) (it : PlanItem) (cs : Nat → Chunks)
-    (levels : List Nat) :
-    appendBuiltLevels n (builtOf u g it) cs levels = appendAllWith n u (setupOf g it) cs levels := by
+theorem builtOf_kind (u : Bool) (g : Global) (it : PlanItem) :
+    (builtOf u g it).kind = writerKind (colorMode g.env) (g.isatty it.target) := by
+  rcases g with ⟨e, o, r⟩
+  rcases it with ⟨t, b, c⟩
+  cases t <;> rfl
+
+theorem appendBuilt_eq (u : Bool) (g : Global) (it : PlanItem) (enc : Enc) (l : Nat) :
+    appendBuilt (builtOf u g it) enc l = appendEnc u (setupOf g it) enc l := by
+  rcases g with ⟨e, o, r⟩
+  rcases it with ⟨t, b, c⟩
+  cases t <;> rfl
+
+theorem appendBuiltLevels_eq (u : Bool) (g : Global) (it : PlanItem) (enc : Enc) (levels : List Nat) :
+    appendBuiltLevels (builtOf u g it) enc levels = appendAllEnc u (setupOf g it) enc levels := by
   induction levels with
   | nil => rfl
   | cons l ls ih =>
-    simp only [appendBuiltLevels, appendAllWith, ih]
-    congr 1
+    simp only [appendBuiltLevels, appendAllEnc, ih, appendBuilt_eq]
+    rfl
 
-theorem appendAllBuilt_eq (n : Nat) (u : Bool) (g : Global) (cs : Nat → Chunks) (levels : List Nat)
+theorem appendAllBuilt_eq (u : Bool) (g : Global) (enc : Enc) (levels : List Nat)
     (items : List PlanItem) :
-    appendAllBuilt n cs levels (items.map (builtOf u g)) =
-      seqStreams (items.map fun it => appendAllWith n u (setupOf g it) cs levels) := by
+    appendAllBuilt enc levels (items.map (builtOf u g)) =
+      seqStreams (items.map fun it => appendAllEnc u (setupOf g it) enc levels) := by
   induction items with
   | nil => rfl
   | cons it its ih =>
@@ -384,5 +425,115 @@ theorem parseSgr_sound (bs : Bytes) (s : Style) (h : parseSgr bs = some s) :
     (rcases (takeIntense (takeColor 52 (takeColor 51 rest).2).2).1 with _ | _ | _) <;> rfl
 
 theorem parseSgr_table : ∀ s ∈ allStyles, parseSgr (sgr s) = some s := by decide +kernel
+
+/-! ### the appender against the statement, for any encoder that meets its own specification -/
+
+theorem isTty_eq_colourEnabled (e : Env) (tty : Bool) :
+    (writerKind (colorMode e) tty).isTty = colourEnabled e tty := by
+  rcases e with ⟨a, b, c⟩
+  cases a <;> cases b <;> cases c <;> cases tty <;> rfl
+
+theorem appendEnc_spec (s : Setup) (enc : Enc) (want : Want) (level : Nat)
+    (henc : ∀ k l, enc k l = .ok (render (want k.isTty l))) :
+    appendEnc true s enc level =
+      .ok (if shouldWrite s.targetIsatty s.ttyOnly then
+        Streams.on s.target (render (want (colourEnabled s.env s.targetIsatty) level)) else {}) := by
+  simp only [appendEnc, doWriteWith, if_true, shouldWrite, henc, isTty_eq_colourEnabled, obind]
+  split <;> simp_all
+
+theorem appendAllEnc_spec (g : Global) (it : PlanItem) (enc : Enc) (want : Want) (levels : List Nat)
+    (henc : ∀ k l, enc k l = .ok (render (want k.isTty l))) :
+    appendAllEnc true (setupOf g it) enc levels = .ok (expectedItemW g it levels want) := by
+  have hi := setupOf_targetIsatty g it
+  have hs : (setupOf g it).ttyOnly = it.ttyOnly := rfl
+  have he : (setupOf g it).env = g.env := rfl
+  have ht : (setupOf g it).target = it.target := rfl
+  induction levels with
+  | nil =>
+    simp only [appendAllEnc, expectedItemW, List.flatMap_nil]
+    split
+    · cases it.target <;> rfl
+    · rfl
+  | cons l ls ih =>
+    simp only [appendAllEnc, appendEnc_spec _ _ want _ henc, ih, obind, expectedItemW, hi, hs, he, ht,
+      List.flatMap_cons]
+    split
+    · have := Streams.on_append it.target
+        (render (want (colourEnabled g.env (g.isatty it.target)) l))
+        (List.flatMap (fun l => render (want (colourEnabled g.env (g.isatty it.target)) l)) ls)
+      simpa [Streams.append] using this
+    · rfl
+
+/-! ### the strict scanner is sound: what it accepts is what it reads back -/
+
+theorem scanFrom_sound (bs : Bytes) :
+    ∀ (st : ScanState) (toks : List Tok), scanFrom st bs = some toks →
+      render toks = (match st with | none => [] | some acc => acc.reverse) ++ bs ∧
+      (∀ s, Tok.sgr s ∈ toks → s ∈ allStyles) ∧ (∀ b, Tok.byte b ∈ toks → b ≠ 27) := by
+  induction bs with
+  | nil =>
+    intro st toks h
+    cases st with
+    | none => simp [scanFrom] at h; subst h; simp [render]
+    | some acc => simp [scanFrom] at h
+  | cons x xs ih =>
+    intro st toks h
+    simp only [scanFrom] at h
+    cases hs : scanStep st x with
+    | none => simp [hs] at h
+    | some p =>
+      obtain ⟨st', ts⟩ := p
+      simp only [hs] at h
+      cases hx : scanFrom st' xs with
+      | none => simp [hx] at h
+      | some rest =>
+        simp only [hx, Option.some.injEq] at h
+        subst h
+        obtain ⟨ih1, ih2, ih3⟩ := ih st' rest hx
+        cases st with
+        | none =>
+          simp only [scanStep] at hs
+          by_cases hx27 : x = 27
+          · simp only [hx27, if_true, Option.some.injEq, Prod.mk.injEq] at hs
+            obtain ⟨rfl, rfl⟩ := hs
+            refine ⟨?_, ?_, ?_⟩
+            · simpa [hx27] using ih1
+            · simpa using ih2
+            · simpa using ih3
+          · simp only [hx27, if_false, Option.some.injEq, Prod.mk.injEq] at hs
+            obtain ⟨rfl, rfl⟩ := hs
+            refine ⟨?_, ?_, ?_⟩
+            · simpa [render] using ih1
+            · intro s hs'; simp at hs'; exact ih2 s hs'
+            · intro b hb; simp at hb; rcases hb with hb | hb
+              · subst hb; exact hx27
+              · exact ih3 b hb
+        | some acc =>
+          simp only [scanStep] at hs
+          by_cases hm : x = 109
+          · simp only [hm, if_true] at hs
+            cases hp : parseSgr (acc.reverse ++ [109]) with
+            | none => simp [hp] at hs
+            | some s =>
+              simp only [List.reverse_cons, hp, Option.some.injEq, Prod.mk.injEq] at hs
+              obtain ⟨rfl, rfl⟩ := hs
+              obtain ⟨hbytes, hmem⟩ := parseSgr_sound _ _ hp
+              refine ⟨?_, ?_, ?_⟩
+              · simp only [List.singleton_append, render, ih1, List.nil_append, hm]
+                rw [← hbytes]; simp
+              · intro s' hs'; simp at hs'; rcases hs' with hs' | hs'
+                · subst hs'; exact hmem
+                · exact ih2 s' hs'
+              · intro b hb; simp at hb; exact ih3 b hb
+          · simp only [hm, if_false] at hs
+            split at hs
+            · cases hs
+            · simp only [Option.some.injEq, Prod.mk.injEq] at hs
+              obtain ⟨rfl, rfl⟩ := hs
+              refine ⟨?_, ?_, ?_⟩
+              · simpa using ih1
+              · simpa using ih2
+              · simpa using ih3
+
 
 end Log4rs.Console
